@@ -4,6 +4,8 @@ import itertools
 from framework import Failure
 import tiers as T
 import tierops
+import tgops
+import dispatch
 
 RULE = ("exhaustive family on the dyadic grid: tiers of <=3 disjoint intervals with integer boundaries in [0,6] x regions "
         "a<b on the half-integer grid inside the span (plus a==b, a>b) x 3 collision modes x doShrink; random tiers on 1-3 "
@@ -18,9 +20,9 @@ MODES = ["truncate", "categorical", "error"]
 
 case_json = lambda c: c
 case_from_json = lambda j: j
-encode = tierops.encode
-impl = tierops.impl
-render = tierops.render
+encode = dispatch.encode
+impl = dispatch.impl
+render = dispatch.render
 
 
 def wants_x(c):
@@ -49,6 +51,8 @@ def expected_entries(c):
 
 
 def oracle(c, r):
+    if dispatch.is_tg(c):
+        return tgops.oracle(c, r)
     a, b, t = c["a"], c["b"], c["tier"]
     op = c["op"]
     sig = {"op": op, "mode": c.get("mode"), "shrink": c["shrink"]}
@@ -99,6 +103,8 @@ def oracle(c, r):
 
 
 def tags(c, r):
+    if dispatch.is_tg(c):
+        return [c['op'], 'grid' if c.get('grid') else 'dec'] + (['err:' + r[1]] if r[0] == 'err' else [])
     out = [c["op"], "mode:" + str(c.get("mode")), "shrink:" + str(c["shrink"]), "grid" if c.get("grid") else "dec"]
     if r[0] == "err":
         out.append("err:" + r[1])
@@ -114,6 +120,8 @@ def tags(c, r):
 
 
 def nontrivial(c, r):
+    if dispatch.is_tg(c):
+        return any(t['es'] for t in c['tg']['tiers'])
     a, b = c["a"], c["b"]
     if c["tier"]["k"] == "I":
         return any(e[1] > a for e in c["tier"]["es"])
@@ -146,6 +154,25 @@ def corpus():
 
 
 def gen(rnd, tier):
+    yield from gen_tier_level(rnd, tier)
+    for i in range(20000 if tier == 'thorough' else 1500):
+        domain = rnd.choice(['dec', 'dec', 'grid64'])
+        c = tg_case(rnd, domain)
+        c['grid'] = domain != 'dec'
+        yield c
+
+
+def tg_case(rnd, domain):
+    g = tgops.gen_tg(rnd, domain, valid=rnd.random() < 0.8)
+    pool = sorted({x for t in g['tiers'] for x in T.boundary_pool(t, rnd, domain)})
+    pool = [x for x in pool if 0 <= x <= g['hi']]
+    a, b = rnd.choice(pool), rnd.choice(pool)
+    if a > b and rnd.random() < 0.95:
+        a, b = b, a
+    return {'op': 'tg_erase', 'tg': g, 'a': a, 'b': b, 'shrink': rnd.random() < 0.6}
+
+
+def gen_tier_level(rnd, tier):
     if tier == "thorough":
         for c in family_cases(3):
             yield c
@@ -171,9 +198,7 @@ def gen(rnd, tier):
                "grid": domain != "dec"}
 
 
-def shrink(c):
-    for s in T.shrink_spec(c["tier"]):
-        yield dict(c, tier=s)
+shrink = dispatch.shrink
 
 
 def perturb(c, rnd):
